@@ -368,7 +368,7 @@ pub fn run(ctx: &Ctx) -> Report {
     util::quiet_panics();
     let mut rep = Report::new("model_checking");
     let len = if ctx.tier.thorough() { 6 } else { 5 };
-    let keeps: &[usize] = if ctx.tier.thorough() { &[1, 2, 3, 4] } else { &[1, 2, 3] };
+    let keeps: &[usize] = if ctx.tier.thorough() { &[0, 1, 2, 3, 4] } else { &[0, 1, 2, 3] };
     rep.rule = "every update history (sequence over 4 data sets, repeats = \
         no-change runs) x history-size x serial base (0, 2^31-3, 2^32-3: \
         wrap inside the window); after every step every client serial \
